@@ -271,6 +271,18 @@ def eval_cases(shards, tag, header, timeout=900):
             running = still
             if running:
                 time.sleep(0.05)
+        # a shard killed by the time limit or by the OS (no Coq error message: rc 124/137/-9, empty stderr) says
+        # nothing about the model: re-run it alone, once, with a longer limit, before reporting it as failed
+        for i, r in enumerate(results):
+            if r is not None and r[0] != 0 and not (r[2] or "").strip() and "Error" not in (r[1] or ""):
+                try:
+                    pr = subprocess.run(["timeout", str(timeout * 3), "coqc"] + COQ_FLAGS + [paths[i]], cwd=d,
+                                        capture_output=True, text=True)
+                    results[i] = (pr.returncode, pr.stdout,
+                                  pr.stderr or ("coqc exited with status %d and no message (first attempt: %d)" % (pr.returncode, r[0])
+                                                if pr.returncode else ""))
+                except Exception as ex:  # noqa
+                    results[i] = (r[0], r[1], "retry failed: %r" % (ex,))
         return results
     finally:
         cleanup(d)
